@@ -3,7 +3,10 @@
 Statistical tie (DESIGN §6-C01).  Each configuration runs the REAL `scheduler()` of the current
 tree in its own process on the lattice plug-in model (`harness/lattice/`): 3–5 interfaces on
 half-integers, a move assignment in {sh,wf}^ensembles, with or without an interface cap, W workers
-with a random completion order, one restart through the real `restart.toml` at a random point.
+with a random completion order, one restart through the real `restart.toml` at a random point — plus
+targeted configurations: [0+] as a wire-fencing ensemble under a low cap with one worker (frequent
+[0-]<->[0+] swaps under the high-acceptance rule), and restart-heavy runs (wire fencing + cap, a real
+restart every 10–20 steps, i.e. hundreds of complete setup_config + scheduler() lives).
 From `infretis_data.txt` (+ the live paths of `restart.toml`) the conditional crossing
 probabilities are computed twice — by the Lean estimator `Infretis.Lattice.estimate` (compiled
 driver, exact rationals) and by its Python twin (`fractions.Fraction`); the two must agree exactly
@@ -75,7 +78,7 @@ def cost_ms(n, moves):
 def gen_configs(ctx):
     rng = ctx.rng
     quick = ctx.quick
-    budget_s = 150 if quick else 1150
+    budget_s = 150 if quick else 1000
     max_steps = 22000 if quick else 200000
     cfgs = []
 
@@ -115,6 +118,36 @@ def gen_configs(ctx):
         cfgs.append(mk(5, ["wf", "wf", "wf", "sh"], True))
         cfgs.append(mk(5, rand_tail(5), False))
         cfgs.append(mk(5, rand_tail(5), True))
+
+    # targeted configurations (drawn after the others so that those keep their seeds):
+    #  (a) [0+] itself is a wire-fencing ensemble and the cap lies well below the last interface, one
+    #      worker: the [0-]<->[0+] swap then runs often and its high-acceptance rule needs the cap;
+    #  (b) restart-heavy: wire fencing + cap, a real restart through restart.toml every 10–20 steps
+    #      (hundreds of setup_config + scheduler() lives): re-loaded paths need the cap in their weights.
+    # Both effects grow with the distance between the cap and the last interface, hence 5–6 interfaces.
+    def mk_t(n, tail, cap, W, steps, every=None):
+        moves = ["sh"] + list(tail)
+        assert cap in caps_with_room(n, moves)
+        steps -= steps % 100
+        c = {"nintf": n, "moves": moves, "cap": cap, "workers": W, "steps": steps,
+             "first_leg": int(steps * rng.uniform(0.3, 0.7)),
+             "seed": rng.randrange(1, 2 ** 31), "order_seed": rng.randrange(2 ** 31), "n_jumps": 2}
+        if every:
+            c["restart_every"] = list(every)
+            c["restart_seed"] = rng.randrange(2 ** 31)
+            c["first_leg"] = 0
+        return c
+
+    if quick:
+        cfgs.append(mk_t(6, ["wf", "sh", "sh", "sh", "sh"], 1.5, 1, 12000))
+        cfgs.append(mk_t(6, ["sh", "wf", "sh", "sh", "sh"], 2.5, 1, 12000, every=(10, 20)))
+    else:
+        cfgs.append(mk_t(6, ["wf", "sh", "sh", "sh", "sh"], 1.5, 1, 50000))
+        cfgs.append(mk_t(6, ["wf", "sh", "sh", "sh", "sh"], 2.5, 2, 50000))
+        cfgs.append(mk_t(5, ["wf", "wf", "sh", "sh"], 2.5, 2, 50000))
+        cfgs.append(mk_t(6, ["sh", "wf", "sh", "sh", "sh"], 2.5, 1, 36000, every=(10, 20)))
+        cfgs.append(mk_t(6, ["sh", "wf", "wf", "sh", "sh"], 3.5, 2, 36000, every=(10, 20)))
+        cfgs.append(mk_t(5, ["sh", "wf", "sh", "sh"], 2.5, 3, 40000, every=(20, 40)))
     return cfgs
 
 
@@ -139,7 +172,7 @@ def analyse(c, r, driver_exe):
     out = {"config": c, "wall_s": r["wall_s"], "n_rows": len(r["rows"]), "n_live": len(r["live"]),
            "malformed": [b[1][:200] for b in bad[:3]], "n_malformed": len(bad), "final": r.get("final"),
            "data_files": r.get("data_files"), "restart_cstep": r.get("restart_cstep"),
-           "restart_locked": r.get("restart_locked")}
+           "restart_locked": r.get("restart_locked"), "n_restarts": r.get("n_restarts")}
     t0 = time.time()
     twin = sim.estimate_exact(rows, n)
     out["twin"] = [(str(a), str(b), (str(a / b) if b else "none")) for a, b in twin]
@@ -176,7 +209,10 @@ def run_all(cfgs, driver_exe, nproc=16):
     try:
         with mp.get_context("fork").Pool(min(nproc, len(cfgs)), maxtasksperchild=1) as pool:
             # longest first
-            order = sorted(range(len(cfgs)), key=lambda i: -cfgs[i]["steps"] * cost_ms(cfgs[i]["nintf"], cfgs[i]["moves"]))
+            def est_cost(c):
+                extra = 70.0 * c["steps"] / (sum(c["restart_every"]) / 2.0) if c.get("restart_every") else 0.0
+                return c["steps"] * cost_ms(c["nintf"], c["moves"]) + extra
+            order = sorted(range(len(cfgs)), key=lambda i: -est_cost(cfgs[i]))
             res = pool.map(work, [(cfgs[i], driver_exe, tag) for i in order], chunksize=1)
         out = [None] * len(cfgs)
         for i, r in zip(order, res):
@@ -189,12 +225,13 @@ def run_all(cfgs, driver_exe, nproc=16):
 
 # ----------------------------------------------------------------------------- judging
 def cfg_key(c):
-    return (c["nintf"], tuple(c["moves"]), c["cap"], c["workers"])
+    return (c["nintf"], tuple(c["moves"]), c["cap"], c["workers"], bool(c.get("restart_every")))
 
 
 def cfg_str(c):
+    rs = f"restart-every-{c['restart_every'][0]}..{c['restart_every'][1]}" if c.get("restart_every") else f"restart@{c['first_leg']}"
     return (f"n={c['nintf']} moves={','.join(c['moves'])} cap={c['cap']} W={c['workers']} steps={c['steps']} "
-            f"restart@{c['first_leg']} seed={c['seed']}")
+            f"{rs} seed={c['seed']}")
 
 
 def length_rule_direction(n, k):
@@ -383,7 +420,7 @@ def run(ctx):
         for (sig, what, rep) in judge(ctx, r):
             ctx.fail(sig, what, rep)
         row = {"config": cfg_str(c), "wall_s": r["wall_s"], "rows": r["n_rows"], "data_files": r["data_files"],
-               "restart_cstep": r["restart_cstep"], "final_cstep": (r.get("final") or {}).get("cstep"),
+               "restart_cstep": r["restart_cstep"], "n_restarts": r.get("n_restarts"), "final_cstep": (r.get("final") or {}).get("cstep"),
                "longest_path": r["maxlen_path"],
                "cols": [None if s is None or s.get("sigma") is None else
                         {"p": round(s["p"], 5), "exact": round(s["p0"], 5), "sigma_eff": round(s["sigma"], 5),
